@@ -77,13 +77,15 @@ func (d *Driver) read() {
 
 				var subID int
 
-				messageID = getID(patterns.messageID.FindSubmatch(b))
-				if messageID == 0 && d.SelectedVersion == V1Dot1 {
-					// a chunk boundary may legally fall inside the message-id attribute, look
-					// again with the chunk headers removed
+				if d.SelectedVersion == V1Dot1 {
+					// a chunk boundary may legally fall inside the message-id attribute, so look
+					// for it with the chunk headers removed -- the first match is then always
+					// the attribute of the rpc-reply element itself, never some later text
 					messageID = getID(
 						patterns.messageID.FindSubmatch(v1Dot1ChunkHeader.ReplaceAll(b, nil)),
 					)
+				} else {
+					messageID = getID(patterns.messageID.FindSubmatch(b))
 				}
 
 				if bytes.Contains(b, []byte("</subscription-id>")) {
